@@ -18,7 +18,7 @@ var validPool = map[ValKind][]string{
 	KInt:    {"0", "7", "-3", "42", "+5", "007", "2147483648", "-9223372036854775808", "9223372036854775807"},
 	KFloat:  {"0", "1.5", "-2.25", "1e3", ".5", "inf", "-Inf", "NaN", "1e-7", "0x1p-2", "-0"},
 	KBool:   {"true", "false", "1", "0", "t", "F", "TRUE", "False"},
-	KString: {"a", "hello world", "x=y", "-dash", "  padded ", "a,b", "é✓", "--", "-", "v", "\\-v", "a\\b", "\"quoted\"", "\"", "'x'", "$HOME", "%s", "no-v"},
+	KString: {"a", "hello world", "x=y", "-dash", "  padded ", "a,b", "é✓", "--", "-", "v", "\\-v", "a\\b", "\"quoted\"", "\"", "'x'", "$HOME", "%s", "no-v", "a\r", "\r", "line\n", "\t"},
 }
 
 var invalidPool = map[ValKind][]string{
